@@ -57,9 +57,12 @@ def flow_lattice(quick):
                 if quick and dtype == "float64" and d and "ftype" not in d:
                     continue
                 for weights in ("fresh", "trained", "reset_weights", "reset_permutations"):
-                    if quick and weights in ("reset_weights", "reset_permutations") and d:
+                    stateful = any(k in d for k in ("batch_norm_between_layers", "actnorm", "pre_transform"))
+                    if quick and weights in ("reset_weights", "reset_permutations") and d and not (stateful and weights == "reset_weights" and dims == 2):
                         continue
                     cfgs.append(dict(flow={**base, **d, "n_inputs": dims}, dtype=dtype, weights=weights, label=f"{sorted(d.items())}|d={dims}|{dtype}|{weights}"))
+                    if dims == 2 and dtype == "float32" and not (quick and weights == "reset_permutations"):
+                        cfgs.append(dict(flow={**base, **d, "n_inputs": dims}, dtype=dtype, weights=weights, order="eval-first", label=f"{sorted(d.items())}|d={dims}|{dtype}|{weights}|eval-first"))
     if not quick:
         # pairwise-ish: combine flow types with linear transforms and batch norm
         for ft, lt, bn in itertools.product(("realnvp", "maf", "nsf"), (None, "permutation", "lu", "svd"), (False, True)):
@@ -102,6 +105,41 @@ def flow_worker(cfg):
             fm.reset_model(weights=True)
         elif cfg["weights"] == "reset_permutations":
             fm.reset_model(weights=False, permutations=True)
+        # array-level reads must be pure whatever their order: generate-and-report equals
+        # evaluate, and asking for the density of the same points twice gives the same answer
+        # (no data-dependent initialisation at evaluation time).  No explicit model.eval() here:
+        # the mode is whatever the public API leaves behind.
+        gsub = grid(d)
+        gsub = gsub[:: max(1, len(gsub) // 40)].astype("float64" if f64 else "float32")
+        with np.errstate(all="ignore"):
+            if cfg.get("order", "sample-first") == "sample-first":
+                xs_, lps_ = fm.sample_and_log_prob(N=48)
+                lpe_ = fm.log_prob(xs_)
+                lpg1 = fm.log_prob(gsub)
+            else:
+                lpg1 = fm.log_prob(gsub)
+                xs_, lps_ = fm.sample_and_log_prob(N=48)
+                lpe_ = fm.log_prob(xs_)
+            lpg2 = fm.log_prob(gsub)
+            _, lpf_ = fm.forward_and_log_prob(gsub)
+            lpe2_ = fm.log_prob(xs_)
+        n_checks += 4
+        # a flow that contracts strongly (|log density| large) amplifies rounding of the sample
+        # through the inverse map: only moderately scaled samples are compared here, the
+        # contraction-aware comparison of all points follows below
+        lim_ = 30.0 if f64 else 12.0
+        fin = np.isfinite(lps_) & np.isfinite(lpe_) & (np.abs(lps_) < lim_) & (np.abs(lpe_) < lim_)
+        amp_tol = tol * 50
+        if fin.any() and np.max(np.abs(lps_[fin] - lpe_[fin]) / (1 + np.abs(lpe_[fin]))) > amp_tol:
+            errs.append(("api:generated-density-differs-from-evaluated-density", f"max diff {np.max(np.abs(lps_[fin] - lpe_[fin]))} ({cfg.get('order')})"))
+        fg = np.isfinite(lpg1) & np.isfinite(lpg2)
+        if fg.any() and np.max(np.abs(lpg1[fg] - lpg2[fg])) > 1e-6 * (1 + np.max(np.abs(lpg1[fg]))):
+            errs.append(("api:density-of-the-same-points-changes-between-two-reads", f"max diff {np.max(np.abs(lpg1[fg] - lpg2[fg]))} ({cfg.get('order')})"))
+        if fin.any() and np.max(np.abs(lpe_[fin] - lpe2_[fin])) > 1e-6 * (1 + np.max(np.abs(lpe_[fin]))):
+            errs.append(("api:density-of-the-same-points-changes-between-two-reads", f"own samples, max diff {np.max(np.abs(lpe_[fin] - lpe2_[fin]))} ({cfg.get('order')})"))
+        ff = fg & np.isfinite(lpf_)
+        if ff.any() and np.max(np.abs(lpf_[ff] - lpg1[ff]) / (1 + np.abs(lpg1[ff]))) > tol * 10:
+            errs.append(("api:forward_and_log_prob-differs-from-log_prob", f"max diff {np.max(np.abs(lpf_[ff] - lpg1[ff]))}"))
         model = fm.model
         model.eval()
         tdt = torch.get_default_dtype()
